@@ -3,6 +3,7 @@ CONSTANTS
   WBITS = 5
   Bug_AtWraps = FALSE
   Bug_IntervalWraps = FALSE
+  Bug_GridScanGE = FALSE
   TIER = "quick"
 ACTION_CONSTRAINT Emit
 INVARIANTS GridNewOK AcceptOK BinOK TriOK WordOK ReadOK FindOK
